@@ -910,7 +910,7 @@ def c19b(fb, rep):
     """R19.13: a single-statement `while(v != 0 && ...) x = f(--w);` steps the counter its guard tests: the counter compared with 0 in the condition is (one
     of) the counter(s) the statement decrements - otherwise the loop walks below position 0 or never moves (merge loops of the sparse products).
     (written after seed C19-6 was missed)"""
-    rep.rule('R19.13', 'containers: a one-statement while loop decrements the counter that its guard compares with 0', floor=3)
+    rep.rule('R19.13', 'containers: a one-statement while loop decrements the counter that its guard compares with 0', floor=2)
     k = 0
     for f in sorted(fb.funcs.values(), key=lambda g: (g.file, g.line, g.name)):
         if not f.nodes or not f.name.startswith('soplex::') or not re.search(r'/(ssvectorbase|svectorbase|svsetbase|dsvectorbase|vectorbase|idxset|didxset|dataset|classset|islist|idlist|nameset)\.h', f.file):
@@ -926,7 +926,7 @@ def c19b(fb, rep):
             rep.check(bool(gv & decs), 'R19.13', '%s|while(%s)#%d' % (f.short, sorted(gv)[0], k), '%s:%d' % (f.file, n.l), 'guard and step agree on %s' % sorted(gv & decs),
                       '`while(%s) %s`: the guard tests %s against 0, the statement decrements %s - the guard never changes through the loop itself and the stepped counter runs below 0'
                       % (render(n.kid('cond'))[:50], render(n.kid('body'))[:40], sorted(gv), sorted(decs)))
-    if k < 3:
+    if k < 2:
         raise AnalysisBroken('R19.13: only %d one-statement while loops with a zero guard found in the container headers' % k)
 
 
@@ -1494,13 +1494,13 @@ def c13b(fb, rep):
                 k += 1
                 rep.ok('R13.18', '%s|spxOpenInputFile#%d' % (f.short, k), '%s:%d' % (f.file, n.l), 'opened through the helper', nontrivial=False)
             if n.k == 'VarDecl' and n.t and re.search(r'(spxifstream|zstr::ifstream)\b', n.t) and n.c:
-                ctor = [x for x in n.walk() if x.k == 'CXXConstructExpr']
-                if ctor and ctor[0].args():
+                if re.search(r'ifstream\([^)]', render(n)):
                     k += 1
                     rep.bad('R13.18', '%s|%s#%d' % (f.short, render(n)[:30], k), '%s:%d' % (f.file, n.l),
                             '`%s` constructs the stream from a file name: for a missing file, a directory or a damaged gz stream the constructor / the reads throw and the documented '
                             '"returns false" of the reader never happens (the binary terminates)' % render(n)[:60])
-    if opens < 3:
+    # (a tree in which the streams are constructed directly again has no such calls: that is the violation reported above, not a blind rule)
+    if opens < 3 and k == opens:
         raise AnalysisBroken('R13.18: only %d calls of spxOpenInputFile found' % opens)
 
 
@@ -1585,18 +1585,22 @@ def c13c(fb, rep):
     atof / atoi / strtod call in the MPSread* functions themselves.  (F141)"""
     rep.rule('R13.19', 'MPS reader (floating-point): value fields are converted by MPSreadValue(), never by atof()', floor=6)
     k = 0
+    nbad = 0
     for f in sorted(fb.funcs.values(), key=lambda g: (g.file, g.line)):
         if not f.nodes or not f.file.endswith('spxlpbase_real.hpp') or not (f.short or '').startswith('MPSread') or f.short == 'MPSreadValue':
             continue
         for n in f.nodes:
             if n.k == 'CallExpr' and n.short in ('atof', 'atoi', 'atol', 'strtod', 'strtol', 'stod', 'stoi', 'MPSreadValue'):
                 k += 1
+                nbad += (n.short != 'MPSreadValue')
                 rep.check(n.short == 'MPSreadValue', 'R13.19', '%s|%s#%d' % (f.short, n.short, k), '%s:%d' % (f.file, n.l), 'checked conversion',
                           '%s(%s) accepts "nan", "inf", "abc" (0) and "1/3" (1) without an error: readFile() returns true and the LP holds NaN / infinity / another number' %
                           (n.short, render(n.args()[0])[:30] if n.args() else ''))
     if k < 6:
         raise AnalysisBroken('R13.19: only %d value conversions found in the MPS reader' % k)
     h = [f for f in fb.funcs.values() if f.nodes and f.short == 'MPSreadValue']
+    if not h and nbad:
+        return            # the unchecked conversions reported above are the finding; there is no helper to look at
     if not h:
         raise AnalysisBroken('R13.19: MPSreadValue not found')
     txt = ' '.join(render(n) for n in h[0].nodes if n.k in ('BinaryOperator', 'CallExpr', 'UnaryOperator'))
